@@ -114,16 +114,11 @@ def eval_entry(
         return value
 
     try:
-        literal_eval(value)
+        new_value = literal_eval(value)
     except (SyntaxError, ValueError, NameError):
-        # ensure quotes in case of string literal value
-        first_char = value[0]
-        last_char = value[-1]
+        # This is not a Python literal, keep it as a string
+        return value
 
-        if first_char != last_char or first_char not in ("'", '"'):
-            value = '"' + value + '"'
-
-    new_value = literal_eval(value)
     assert isinstance(new_value, str | Number | Sequence)
 
     return new_value
